@@ -25,7 +25,7 @@ def mutate_pair(rng, live, r, benign=False):
     if tr["name"] in ("script", "style"):
         return None  # raw-text elements: their text is not escaped by design, they are not mutated here
     m = rng.choice(["pop", "del", "clear", "set_new", "append_text", "del_child", "remove_class", "rename", "toggle_ws", "insert_tag", "insert_meta",
-                    "reverse_children"])
+                    "reverse_children", "repeat_children", "rotate_children"])
     names = []
     for n, v in tr["attrs"]:
         if v["t"] not in ("none", "false") and norm_name(n) not in names:
@@ -86,6 +86,20 @@ def mutate_pair(rng, live, r, benign=False):
     elif m == "reverse_children" and len(t.children) == len(gen.flat_children(tr)) and len(t.children) > 1:
         t.children.reverse()
         tr["c"] = gen.flat_children(tr)[::-1]
+    elif m == "repeat_children" and not benign and 1 <= len(t.children) <= 8 and len(t.children) == len(gen.flat_children(tr)):
+        # the in-place repeat operator: afterwards the list holds its children n times over, in order (the same objects)
+        # (the recipe repeats the very same recipe objects, as the list repeats the very same nodes: a later change to one
+        #  occurrence is a change to all of them on both sides; layout checks with unique content marks do not use this one)
+        n = rng.choice([2, 3, 3, 4])
+        kids_live = t.children
+        kids_live *= n
+        tr["c"] = gen.flat_children(tr) * n
+        m = "repeat_children_x%d" % n
+    elif m == "rotate_children" and len(t.children) >= 2 and len(t.children) == len(gen.flat_children(tr)):
+        first = t.children.pop(0)
+        t.append(first)
+        kids = gen.flat_children(tr)
+        tr["c"] = kids[1:] + kids[:1]
     else:
         return None
     return m
